@@ -152,9 +152,14 @@ Inductive mdim := MSamples | MInst | MNodes | MLenXv | MLenYv | MLit (n : nat) |
 Inductive mref := RAcc | RNew.                      (* cms / cm_instance *)
 Inductive marg := MUnsq0 | MRaw | MXv | MYv | MSigma.  (* p.unsqueeze(dim=0), p, xv, yv, sigma *)
 
+(* how the loop variable ranges over the animals:
+     points = points_batch.reshape(<shape>)        (pinned tree: all animals of all samples in a row)
+     points = points_batch.transpose(<a>, <b>)     (repair of F60: animal slot k of every sample) *)
+Inductive mlayout := LReshape (dims : list mdim) | LTranspose (a b : nat).
+
 Record multi_ir := {
   mu_zeros : list mdim;          (* cms = torch.zeros(<shape>, dtype=torch.float32) *)
-  mu_reshape : list mdim;        (* points = points_batch.reshape(<shape>); for p in points *)
+  mu_points : mlayout;           (* points = points_batch.<layout>; for p in points *)
   mu_call : list marg;           (* cm_instance = make_confmaps(<args>) *)
   mu_comb : mref * mref;         (* cms = torch.maximum(<a>, <b>) *)
   mu_ret : mref                  (* return cms *)
@@ -204,6 +209,16 @@ Definition zeros4 (d0 d1 d2 d3 : nat) : list (list cmap) :=
 Definition maximum_bcast (cms new : list (list cmap)) : list (list cmap) :=
   map (fun sm => map2 cmap_max sm (hd [] new)) cms.
 
+(* torch.maximum of two (samples, nodes, h, w) tensors: elementwise, no broadcast *)
+Definition maximum_same (cms new : list (list cmap)) : list (list cmap) :=
+  map2 (map2 cmap_max) cms new.
+
+(* points_batch.transpose(0, 1) : (n_inst, samples, n_nodes, 2); element k holds
+   animal slot k of every sample (a tensor is rectangular: every sample has
+   I = n_inst rows; the default [] of nth is never reached on rectangular input) *)
+Definition transpose01 (pts : list (list (list kp))) (I : nat) : list (list (list kp)) :=
+  map (fun k => map (fun smp => nth k smp []) pts) (seq 0 I).
+
 (* n_nodes is read off the shape of the array in the code and is an explicit
    parameter of the model (a list of lists has no shape when it is empty) *)
 Definition denote_multi (ir : multi_ir) (pts : list (list (list kp))) (n_nodes : nat)
@@ -214,27 +229,47 @@ Definition denote_multi (ir : multi_ir) (pts : list (list (list kp))) (n_nodes :
   | [d0; d1; d2; d3] =>
       let v d := mdim_val d S I n_nodes (length xv) (length yv) in
       let cms0 := zeros4 (v d0) (v d1) (v d2) (v d3) in
-      (* points_batch.reshape(samples * n_inst, n_nodes, 2): the instances of
-         all samples in one row-major list; any other shape has no meaning here *)
-      if mdims_eqb (mu_reshape ir) [MMul MSamples MInst; MNodes; MLit 2]
-         && margs_eqb (mu_call ir) [MUnsq0; MXv; MYv; MSigma]
-      then
-        match mu_comb ir, mu_ret ir with
-        | (RAcc, RNew), RAcc =>
-            Some (fold_left (fun cms inst => maximum_bcast cms (make_confmaps [inst] xv yv sig))
-                            (concat pts) cms0)
-        | _, _ => None
-        end
-      else None
+      match mu_points ir, mu_comb ir, mu_ret ir with
+      | LReshape dims, (RAcc, RNew), RAcc =>
+          (* points_batch.reshape(samples * n_inst, n_nodes, 2): the instances of
+             all samples in one row-major list; any other shape has no meaning here.
+             Each animal's (1, nodes, h, w) map is broadcast over the samples. *)
+          if mdims_eqb dims [MMul MSamples MInst; MNodes; MLit 2]
+             && margs_eqb (mu_call ir) [MUnsq0; MXv; MYv; MSigma]
+          then Some (fold_left (fun cms inst => maximum_bcast cms (make_confmaps [inst] xv yv sig))
+                               (concat pts) cms0)
+          else None
+      | LTranspose 0 1, (RAcc, RNew), RAcc =>
+          (* p = animal slot k of every sample, (samples, n_nodes, 2), handed to
+             make_confmaps as it is: a (samples, nodes, h, w) map, no broadcast *)
+          if margs_eqb (mu_call ir) [MRaw; MXv; MYv; MSigma]
+          then Some (fold_left (fun cms p => maximum_same cms (make_confmaps p xv yv sig))
+                               (transpose01 pts I) cms0)
+          else None
+      | _, _, _ => None
+      end
   | _ => None
   end.
 
+(* pinned tree (before the repair of F60) *)
 Definition canon_multi : multi_ir :=
   {| mu_zeros := [MSamples; MNodes; MLenYv; MLenXv];
-     mu_reshape := [MMul MSamples MInst; MNodes; MLit 2];
+     mu_points := LReshape [MMul MSamples MInst; MNodes; MLit 2];
      mu_call := [MUnsq0; MXv; MYv; MSigma];
      mu_comb := (RAcc, RNew);
      mu_ret := RAcc |}.
+
+(* repaired variant (proposed_fixes/C01_F60.diff) *)
+Definition canon_multi_fixed : multi_ir :=
+  {| mu_zeros := [MSamples; MNodes; MLenYv; MLenXv];
+     mu_points := LTranspose 0 1;
+     mu_call := [MRaw; MXv; MYv; MSigma];
+     mu_comb := (RAcc, RNew);
+     mu_ret := RAcc |}.
+
+(* a tensor: every sample has the same number of animal rows *)
+Definition rect (pts : list (list (list kp))) : Prop :=
+  Forall (fun smp => length smp = length (hd [] pts)) pts.
 
 (* ---------------------------------------------------------------- generate_* *)
 Inductive nm := NHeight | NWidth | NStride | NSigma | NXv | NYv | NPoints | NNum.
@@ -367,9 +402,11 @@ Definition slice3 (ix : list sidx) (num : nat) (p : list (list kp)) : option (li
   | _ => None
   end.
 
-(* input: SVP4 (samples, instances, nodes, 2) when is_centroids = false,
+(* the callee make_multi_confmaps denotes its model function in the variant fx
+   (pinned / repaired, see Entry.v);
+   input: SVP4 (samples, instances, nodes, 2) when is_centroids = false,
           SVP3 (samples, instances, 2) when is_centroids = true *)
-Definition denote_genm (ir : genm_ir) (is_centroids : bool) (input : sval) (n_nodes : nat)
+Definition denote_genm (fx : bool) (ir : genm_ir) (is_centroids : bool) (input : sval) (n_nodes : nat)
   (h w num : nat) (sigma : Q) (s : nat) : option (list (list cmap)) :=
   let points :=
     match is_centroids, input with
@@ -393,7 +430,7 @@ Definition denote_genm (ir : genm_ir) (is_centroids : bool) (input : sval) (n_no
       | None => None
       | Some e2 =>
           match map (sx_val e2) (gm_call ir) with
-          | [SVP4 q; SVVec xv; SVVec yv; SVQ sg] => Some (make_multi_confmaps q nn xv yv sg)
+          | [SVP4 q; SVVec xv; SVVec yv; SVQ sg] => Some (mmc fx q nn xv yv sg)
           | _ => None
           end
       end
